@@ -4,7 +4,7 @@
 (* against UnitsFor.tla (property C17) over the registry dump of the       *)
 (* context that answered (IOEnv.ENV: units with dimensionality, alias flag *)
 (* and category id; base units and their long names; the category tables;  *)
-(* the quantities).                                                        *)
+(* the quantities; the SI derived units of the decomposition table).       *)
 (*                                                                         *)
 (* A line is a group: the same X written in several forms (a quantity      *)
 (* name, expressions of base units):                                       *)
@@ -50,7 +50,11 @@ Reg ==
               longcat |-> IF LongOf(b) = <<>> THEN NoCat ELSE CatOf(LongOf(b))] : b \in BaseNames},
    quant |-> [n \in QNames |-> DFromJson(Env.quantities[CHOOSE i \in DOMAIN Env.quantities : Env.quantities[i].name = n].dims)]]
 
-JEnv == [base |-> BaseNames, units |-> [u \in {} |-> VNone], prefixes |-> <<>>, ans |-> VNone, subst |-> {}, closed |-> TRUE]
+\* the expressions X is written in use base units and the SI derived units of the decomposition table (value 1)
+DNames == {Env.decomposition[i].name : i \in DOMAIN Env.decomposition}
+JEnv == [base |-> BaseNames,
+         units |-> [n \in DNames |-> VNum(QOne, DFromJson(Env.decomposition[CHOOSE i \in DOMAIN Env.decomposition : Env.decomposition[i].name = n].dims))],
+         prefixes |-> <<>>, ans |-> VNone, subst |-> {}, closed |-> TRUE]
 
 VARIABLE l
 
